@@ -190,3 +190,9 @@ Theorem C12_claims_root_check_needed_for_consistent_states :
 Proof. exact c12_claims_root_check_needed_for_consistent_states. Qed.
 Print Assumptions C12_claims_root_check_needed_for_consistent_states.
 
+Theorem C12_member_lookup_must_be_case_insensitive :
+  exists p : mtpj,
+    class_of (decode_mtp_with true all_guards p) = CPanic /\ class_of (decode_mtp all_guards p) = CErr.
+Proof. exact c12_member_lookup_must_be_case_insensitive. Qed.
+Print Assumptions C12_member_lookup_must_be_case_insensitive.
+
